@@ -123,6 +123,43 @@ fn c08_misdeclared() -> R {
     Ok(())
 }
 
+/// byte strings that are not the encoding of a well-formed envelope (content a key holder / sender may put inside an
+/// encrypted or compressed element)
+pub fn malformed_payloads() -> Vec<(&'static str, Vec<u8>)> {
+    let leaf = |t: &str| CBOR::to_tagged_value(201u64, t);
+    let env = |c: CBOR| CBOR::to_tagged_value(200u64, c).to_cbor_data();
+    let arr = |v: Vec<CBOR>| -> CBOR { CBORCase::Array(v).into() };
+    let two = { let mut m = Map::new(); m.insert(leaf("p"), leaf("o")); m.insert(leaf("q"), leaf("r")); CBOR::from(m) };
+    vec![
+        ("node of a subject and no assertions", env(arr(vec![leaf("x")]))),
+        ("empty node", env(arr(vec![]))),
+        ("node whose assertion element is a leaf", env(arr(vec![leaf("x"), leaf("y")]))),
+        ("assertion map with two entries", env(two)),
+        ("elided digest of 31 bytes", env(CBOR::to_byte_string(vec![7u8; 31]))),
+        ("leaf without the envelope tag", leaf("x").to_cbor_data()),
+        ("truncated", vec![0xd8, 0xc8]),
+        ("trailing byte", { let mut b = env(leaf("x")); b.push(0); b }),
+        ("not CBOR", vec![0xff, 0xff, 0xff]),
+        ("empty", vec![]),
+    ]
+}
+
+/// content that is not a well-formed envelope is refused on decryption (an error, not a crash, not an envelope)
+fn c08_malformed_content() -> R {
+    let ps = malformed_payloads();
+    let (name, payload) = &ps[choice(ps.len())];
+    let key = test_key();
+    let decl = match choice(2) { 0 => sha(payload), _ => dg(&build(&l(1))) };
+    op("SymmetricKey::encrypt_with_digest + Envelope::try_from(EncryptedMessage)");
+    let msg = key.encrypt_with_digest(payload.clone(), Digest::from_data(decl), Some(fixed_nonce()));
+    let forged = must!(Envelope::try_from(msg), "encrypted message with digest refused");
+    let f = match choice(3) { 0 => forged.clone(), 1 => must!(Envelope::try_from_cbor_data(bytes(&forged)), "decode failed"), _ => must!(forged.add_assertion_envelope(build(&a(l(700), l(701)))), "add refused") };
+    rt::note(format!("content: {}", name));
+    op("decrypt_subject (content is not an envelope)");
+    ensure!(f.decrypt_subject(&key).is_err(), "content that is not a well-formed envelope was accepted on decryption", "{}", name);
+    Ok(())
+}
+
 /// single-field tampering (concrete catalogue of bit positions; AEAD is executed, not solver-decided)
 fn c08_tamper() -> R {
     let e = build(&n(l(1), vec![a(l(2), l(3))]));
@@ -279,6 +316,22 @@ fn c13_misdeclared() -> R {
     Ok(())
 }
 
+/// content that is not a well-formed envelope is refused on decompression (an error, not a crash, not an envelope)
+fn c13_malformed_content() -> R {
+    let ps = malformed_payloads();
+    let (name, payload) = &ps[choice(ps.len())];
+    let decl = match choice(2) { 0 => sha(payload), _ => dg(&build(&l(1))) };
+    op("Compressed::from_uncompressed_data + Envelope::try_from(Compressed)");
+    let c = Compressed::from_uncompressed_data(payload.clone(), Some(Digest::from_data(decl)));
+    let forged = must!(Envelope::try_from(c), "compressed with digest refused");
+    let f = match choice(3) { 0 => forged.clone(), 1 => must!(Envelope::try_from_cbor_data(bytes(&forged)), "decode failed"), _ => must!(forged.add_assertion_envelope(build(&a(l(700), l(701)))), "add refused") };
+    rt::note(format!("content: {}", name));
+    op("uncompress (content is not an envelope)");
+    let r = if kind(&f) == Kind::Compressed { f.uncompress() } else { f.uncompress_subject() };
+    ensure!(r.is_err(), "content that is not a well-formed envelope was accepted on decompression", "{}", name);
+    Ok(())
+}
+
 fn c13_corrupt() -> R {
     let e = Envelope::new("lorem ipsum dolor sit amet ".repeat(20)).add_assertion("k", "v");
     let c = must!(e.compress(), "compress failed");
@@ -411,6 +464,9 @@ pub fn prop_c08() -> Prop {
             Scenario { name: "misdeclared", f: c08_misdeclared, thorough_only: false,
                 bounds: "content A x declared digest of B, A and B every non-node shape of <=5 elements + 2 larger (wrapped node) x 0..2 assertions added to the encrypted element x direct / decoded x every digest order: decryption must fail whenever digest(A) != digest(B)",
                 api: &["Envelope::try_from(EncryptedMessage)", "decrypt_subject"] },
+            Scenario { name: "malformed_content", f: c08_malformed_content, thorough_only: false,
+                bounds: "10 plaintexts that are not the encoding of a well-formed envelope (node without assertions, empty node, leaf as assertion element, two-entry map, 31-byte elided digest, missing envelope tag, truncated, trailing byte, not CBOR, empty) x declared digest {SHA-256 of the plaintext, another digest} x bare / decoded / carrying an assertion: decrypt_subject returns an error",
+                api: &["Envelope::try_from(EncryptedMessage)", "decrypt_subject"] },
             Scenario { name: "tamper", f: c08_tamper, thorough_only: false,
                 bounds: "every single bit of the ciphertext, the declared digest (aad), the nonce and the authentication tag of one encrypted subject flipped (choice variables, exhaustively forked), bare and as node subject. ChaCha20-Poly1305 itself is executed, not solver-decided; multi-bit tampering is outside",
                 api: &["decrypt_subject", "Envelope::try_from(EncryptedMessage)"] },
@@ -428,6 +484,9 @@ pub fn prop_c13() -> Prop {
                 api: &["compress", "uncompress", "compress_subject", "uncompress_subject", "add_assertion_envelope", "replace_subject"] },
             Scenario { name: "misdeclared", f: c13_misdeclared, thorough_only: false,
                 bounds: "content A x declared digest of B over every shape of <=5 elements, bare / decoded / with an assertion; compressed element without digest",
+                api: &["Envelope::try_from(Compressed)", "uncompress", "uncompress_subject"] },
+            Scenario { name: "malformed_content", f: c13_malformed_content, thorough_only: false,
+                bounds: "10 contents that are not the encoding of a well-formed envelope (node without assertions, empty node, leaf as assertion element, two-entry map, 31-byte elided digest, missing envelope tag, truncated, trailing byte, not CBOR, empty) x declared digest {SHA-256 of the content, another digest} x bare / decoded / carrying an assertion: uncompress(_subject) returns an error",
                 api: &["Envelope::try_from(Compressed)", "uncompress", "uncompress_subject"] },
             Scenario { name: "corrupt", f: c13_corrupt, thorough_only: false,
                 bounds: "one compressed node: every byte of the DEFLATE stream XOR 3 masks, every truncation length, 3 checksums, 4 declared sizes, trailing garbage (choice variables, exhaustively forked; DEFLATE and CRC-32 themselves are executed, not solver-decided)",
